@@ -1222,6 +1222,11 @@ def run(ctx):
         R.extra["field_families_nontrivial_per_clause_and_setting"] = {f"{c}/allow={a}": len(v) for (c, a), v in sorted(fam_cov.items())}
         for sk, v in seen_sigs.items():
             R.violation(v["signature"], f"{v['what']}  [{v['count']} occurrence(s)]", v["replay"])
+        # a refresh expression the commit-program model cannot express ends a case without a verdict: that is a gap between
+        # model and code (never silence) - reported as a broken correspondence, once per distinct reason
+        for reason in sorted(set(R.extra.get("unmodelled", [])))[:5]:
+            R.mismatch("the commit program of the code under test contains a step the model does not understand: " + reason,
+                       {"op": "unmodelled", "reason": reason, "cases_without_verdict": R.dist.get("unmodelled", 0)})
     finally:
         os.chdir(cwd)
         env.settings.ALLOW_DIRTY_RETRIEVER_OVERWRITE = False
@@ -1270,4 +1275,8 @@ def directed_histories():
               {"op": "user", "key": "Options.disabled_unit_ids_player_1", "val": [4, 5]},
               {"op": "user", "key": "Options.disabled_building_ids_player_1", "val": [70]}, sv])
     H.append([{"op": "user", "key": "Map.script_name", "val": "direct.xs"}, sv, sv])
+    # a count the user pinned in ONE section does not stop the untouched copies of that count elsewhere from following the manager
+    H.append([{"op": "user", "key": "FileHeader.trigger_count", "val": 7}, {"op": "api", "what": "add_trigger", "name": "p1"},
+              {"op": "api", "what": "add_trigger", "name": "p2"}, sv, {"op": "api", "what": "remove_trigger", "i": 0}, sv])
+    H.append([{"op": "user", "key": "Options.number_of_triggers", "val": 9}, {"op": "api", "what": "add_trigger", "name": "p1"}, sv, sv])
     return H
